@@ -45,7 +45,7 @@ type AwsOracle struct {
 	DeadlinePolls  int        `json:"deadline_polls"`
 	AttachFail     []int      `json:"attach_fail,omitempty"`
 	TermFail       []int      `json:"term_fail,omitempty"`
-	TermInAsgFail  []int      `json:"terminasg_fail,omitempty"`
+	TermInAsgFail  []string   `json:"terminasg_fail,omitempty"` // instance ids
 	DescInstFail   bool       `json:"descinst_fail,omitempty"`
 }
 
@@ -79,6 +79,7 @@ type AwsSim struct {
 	fleetOwner                         map[string]string // instance id -> ASG name (from fleet replies)
 	refreshFail                        bool
 	describeAsRefresh                  int // number of upcoming DescribeAutoScalingGroups calls that are provider refreshes
+	journalSink                        *Journal
 }
 
 func NewAwsSim(groups []SimASG) *AwsSim {
@@ -116,6 +117,10 @@ func hasInt(l []int, k int) bool {
 func (s *AwsSim) log(c AwsCall) {
 	if s.record {
 		s.journal = append(s.journal, c)
+		if s.journalSink != nil {
+			cc := c
+			s.journalSink.add(JEntry{Aws: &cc})
+		}
 	}
 }
 
@@ -221,9 +226,12 @@ func (m simAutoscaling) TerminateInstanceInAutoScalingGroup(in *autoscaling.Term
 	if gname == "" && len(s.order) > 0 {
 		gname = s.order[0]
 	}
-	k := s.nTermInAsg[gname]
-	s.nTermInAsg[gname] = k + 1
-	fail := hasInt(s.orc(gname).TermInAsgFail, k)
+	fail := false
+	for _, f := range s.orc(gname).TermInAsgFail {
+		if f == id {
+			fail = true
+		}
+	}
 	decr := awsapi.BoolValue(in.ShouldDecrementDesiredCapacity)
 	s.log(AwsCall{Kind: "TermInAsg", Group: gname, Inst: id, Decr: decr, OK: !fail})
 	if fail {
@@ -470,7 +478,15 @@ func (in *Interner) caorc(o AwsOracle) string {
 		ready = csome(cnat(o.ReadyAt))
 	}
 	return fmt.Sprintf("(Build_aorc %s %s %s %s %s %s %s %s)", cbool(o.SetDesiredFail), desc, fleet, ready, cnat(o.DeadlinePolls),
-		cnats(o.AttachFail), cnats(o.TermFail), cnats(o.TermInAsgFail))
+		cnats(o.AttachFail), cnats(o.TermFail), cbyteslist(o.TermInAsgFail))
+}
+
+func cbyteslist(l []string) string {
+	items := make([]string, 0, len(l))
+	for _, s := range l {
+		items = append(items, cbytes(s))
+	}
+	return clist(items)
 }
 
 func instanceTypes(n int) []string {
